@@ -1,5 +1,7 @@
-from codecmode import run
+import patchmode
 
 
 def main(tier, seed, replay):
-    return run("C11", "c11", tier, seed, replay, "Props.C11", "corr:validity (model encoder/decoder outcome on invalid values and documents vs the generated bindings)")
+    return patchmode.run("C11", tier, seed, replay,
+                         base=dict(mode="c11", prop="Props.C11",
+                                   corr="corr:validity (model encoder/decoder outcome on invalid values and documents vs the generated bindings)"))
